@@ -41,6 +41,27 @@ of the original assignment's value so reports still point at the computing line)
 import ast
 
 
+def evaluation_order(expr):
+    """Nodes of an expression in the order in which their evaluation completes (children in evaluation order, then the
+    node).  Dict displays evaluate key, value, key, value...; everything else follows the field order of the ast."""
+    out = []
+
+    def visit(n):
+        if isinstance(n, ast.Dict):
+            for k, v in zip(n.keys, n.values):
+                if k is not None:
+                    visit(k)
+                visit(v)
+        elif isinstance(n, (ast.Lambda, ast.ListComp, ast.SetComp, ast.DictComp, ast.GeneratorExp)):
+            pass  # body evaluated later / repeatedly: callers treat these as opaque
+        else:
+            for ch in ast.iter_child_nodes(n):
+                visit(ch)
+        out.append(n)
+    visit(expr)
+    return out
+
+
 def _n1(node):
     for child in ast.walk(node):
         if isinstance(child, ast.If) and child.orelse and not (len(child.orelse) == 1 and isinstance(child.orelse[0], ast.If)):
@@ -438,9 +459,14 @@ def _n9_function(func):
                         upos = (u.lineno, u.col_offset)
                         inside_other_scope = any(isinstance(y, (ast.Lambda, ast.ListComp, ast.SetComp, ast.DictComp, ast.GeneratorExp, ast.IfExp)) and any(z is u for z in ast.walk(y)) for y in ast.walk(h))
                         early_call = False
-                        for y in ast.walk(h):
-                            if isinstance(y, (ast.Call, ast.NamedExpr)) and not any(z is u for z in ast.walk(y)) and (y.lineno, y.col_offset) < upos:
-                                early_call = True
+                        order = evaluation_order(h)
+                        upos_i = next((i_ for i_, z in enumerate(order) if z is u), None)
+                        if upos_i is None:
+                            early_call = True
+                        else:
+                            for y in order[:upos_i]:
+                                if isinstance(y, (ast.Call, ast.NamedExpr, ast.Await, ast.Yield, ast.YieldFrom)):
+                                    early_call = True
                         # short-circuit operators: t must be in the first operand to be evaluated unconditionally
                         for y in ast.walk(h):
                             if isinstance(y, ast.BoolOp) and any(z is u for z in ast.walk(y)) and not any(z is u for z in ast.walk(y.values[0])):
